@@ -13,7 +13,11 @@ CHECKS = {
             "Each generated input is aligned by the real library and CLI (sanitizer build, 1..16 threads, every admissible type, default and user penalties) and every observable result is compared with the input: row count, order, names, equal lengths, de-gapped residues incl. case, no all-gap column, only '-' added; msa-object fields (alnlen, gaps[], rank, FINAL) are cross-checked. Held = no discrepancy, no sanitizer report, no monitor alarm on the runs made.",
             'Trusts the independent parsers in vf/fmt.py and the driver drv/kvdrv.c; inputs beyond a few thousand sequences and allocation-failure paths are not reached.',
             "4/C01"),
-    "C02": (False, "", "", "", "4/C02"),
+    "C02": (True,
+            'three runtime monitors: output-byte differential over thread counts / injected-delay schedules / affinity masks / nesting / no-OpenMP and clang-libomp builds; online ordering checkers in the hook runtime (merge-before-child, exactly-once, forward+backward before meet-up, k-means restarts before reduction); clang ThreadSanitizer + libomp + Archer race detection',
+            'Inputs that reach every parallel region are executed by the real binary under many schedules (1..64 threads on 16 cores, seeded delays at task-body starts, 1/2/16-core affinity masks, nested parallelism on and off, gcc/libgomp, clang/libomp and no-OpenMP builds); outputs must be byte-identical, the hook runtime aborts on any merge or DP step that starts before its inputs are complete, and the TSan+Archer build must report no race on kalign-owned memory. Evidence lists events, overlapping DP halves, distinct merge orders and TSan reports seen.',
+            'Schedules are sampled, not enumerated; TSan sees only executed code and the synchronisation Archer models; reports on memory allocated inside libomp.so (recycled task descriptors) are discarded.',
+            "4/C02"),
     "C03": (True,
             'metamorphic runtime monitor: permuted presentations of the same records through the real CLI (ASan+UBSan), compared as sets of columns',
             'For inputs built to be full of sort ties (equal lengths, duplicates, late-differing names) below and above the 100-sequence switch, the real binary is run on reversal, rotation and random permutations (also split over two files) and the column-membership sets must be equal; rows must come back in the order supplied.',
@@ -33,7 +37,11 @@ CHECKS = {
             'The complete grid 2 kinds x 6 type constants x (none+5 values)^3 overrides is executed against golden tables; CLI runs for every --type word and option subset record the aln_param really used by kalign_run through the hook and are compared with golden-table-plus-overrides; explicit defaults and the library constant must reproduce the default CLI output byte for byte. The unit grid is exhaustive for its (finite) space; the end-to-end part is sampled.',
             'Golden tables (ref/golden_params.json) transcribed from the shipped tables and README; float comparison with relative tolerance 1e-4.',
             "4/C09"),
-    "C10": (False, "", "", "", "4/C10"),
+    "C10": (True,
+            'snapshot monitor in the hook runtime: member gap vectors copied at every guide-tree node completion (kv_merge_end) and compared with the projection of the final alignment when kalign_run returns; structural row-length invariant at every node',
+            "For every run of the workload (UPGMA and k-means trees, four tree shapes, all types, 1/4/16 threads with injected delays) every internal node is snapshotted at completion and checked after the run: for each member residue the rank of its final column among the columns used by the node's members must equal its column at completion, and the number of used columns must equal the group's length. Held = zero differing positions over the nodes/residue positions counted in the evidence.",
+            'Snapshot budget of 60M ints per run (nodes beyond it are counted as skipped); trusts rt/verif_rt.c.',
+            "4/C10"),
     "C11": (True,
             "runtime differential monitor: real bpm kernels vs O(nm) reference DP under ASan+UBSan, exhaustive small spaces + seeded random pairs, AVX2 and non-AVX2 builds",
             "Every (text, pattern) pair the workload produces is run through bpm_block, bpm and bpm_256 of the library built from the working tree "
